@@ -40,6 +40,9 @@ CLAIMED = {
     "C07": ("generated failure positions in conversation programs (raising exec bodies and raising callbacks on either side, exec and sub channels, dropped channel objects, healthy siblings) under the deterministic scheduler; transcript oracle; focused exhaustive single preemption in the error-propagation functions",
             "Generated programs with one or two failing conversations and up to two healthy siblings run with both gateway ends in-process under generated schedules; the oracle requires all earlier items, exactly one RemoteError with type/message/traceback text, EOFError afterwards, a proper error on the failing side's own channel, untouched sibling transcripts and a gateway that still executes a fresh remote_exec.",
             "Sampling of schedules; focused single-preemption enumeration complete for scenarios up to 1200 focus lines. For a dropped channel with a callback the documented 'sendonly' state limits what the peer can observe.", "3/C07"),
+    "C10": ("generated moments of setcallback relative to in-flight items and to the peer's close, stream ends by close / end of exec / raising body, MultiChannel receive queues; deterministic scheduler with generated schedules and focused exhaustive single preemption; sequence oracle",
+            "Generated conversations switch a consumer from receive() to a callback before, between or after the items and after the peer's close, with and without endmarker, on exec and sub channels on either side, plus MultiChannel.make_receive_queue over 2-4 members; both gateway ends run in-process under generated schedules. The oracle demands items-by-receive + callback log == sent sequence exactly, one endmarker last iff requested, and refusal of receive()/second setcallback afterwards. Connection loss as stream end is covered by C04.",
+            "Sampling of schedules; focused single-preemption enumeration strided in the quick tier, complete in the thorough tier.", "3/C10"),
 }
 
 NOT_APPLICABLE = {}
